@@ -24,7 +24,7 @@ CFG = dict(
     types={MD: 'MatD', 'bpp::RowMatrix<double>': 'MatD', 'std::vector<unsigned long>': 'PivVec'},
     plain=set(),
     rename={(LUD, 'solve', 2): 'LU__solve', (LUD, 'permuteCopy', 5): 'LU__permuteCopy'},
-    free={('abs', 'double (double)'): 'NumTools__abs', ('SMALL',): 'NumConstants__SMALL',
+    free={('swap', 2): 'verif_swap_ulong', ('abs', 'double (double)'): 'NumTools__abs', ('SMALL',): 'NumConstants__SMALL',
           ('permuteCopy', 5): 'LU__permuteCopy', ('isSquare',): 'MatrixTools__isSquare', ('getId',): 'MatrixTools__getId'},
     throws=set(),
     # the elimination arithmetic is abstracted: * and / on doubles are uninterpreted functions, so every fact decided here holds for
@@ -56,6 +56,8 @@ static inline PivVec PivVec__make_copy(const PivVec *o) { return *o; }
 static inline void MatD__ctor_1(MatD *m, const MatD *o) { *m = *o; }   /* RowMatrix(const Matrix&) */
 '''
 PRELUDE = r'''
+/* std::swap on two pivot entries (size_t): not called by the pinned tree; modelled so that a change which introduces it is decided instead of refused */
+static inline void verif_swap_ulong(unsigned long *a, unsigned long *b) { unsigned long t = *a; *a = *b; *b = t; }
 static inline double NumConstants__SMALL(void) { return 1e-6; }
 #define LU_SHAPES(s) ((s)->LU.rows == (s)->m && (s)->LU.cols == (s)->n && (s)->L_.rows == (s)->m && (s)->L_.cols == (s)->n && (s)->U_.rows == (s)->n && (s)->U_.cols == (s)->n)
 #ifndef VERIF_MODE_BOUNDED
